@@ -301,12 +301,11 @@ def exhaustive_part(ctx, fails):
     lexvecs = vecs
     if ctx.quick:
         # quick tier: every acyclic arrow set, and a sample of 3000 of the cyclic ones (all of them in the thorough tier);
-        # which vectors are acyclic is decided by the Coq model (one bit per vector, same lexicographic order)
-        res, errs = coq_eval(ctx, 'c18dagbits', ['Zepid.Model.Dag'], ['admit_mask (fun os => is_dag (graph5 os)) all_orient5'], shard=1)
-        if res[0] is not None:
-            bits = res[0]
-            acyc = [v for i, v in enumerate(vecs) if (bits >> i) & 1]
-            cyc = [v for i, v in enumerate(vecs) if not (bits >> i) & 1]
+        # which vectors are acyclic is decided by the Coq model (one boolean per vector, same lexicographic order)
+        res, errs = coq_eval(ctx, 'c18dagbits', ['Zepid.Model.Dag'], ['map (fun os => is_dag (graph5 os)) all_orient5'], shard=1)
+        if res[0] is not None and len(res[0]) == len(vecs):
+            acyc = [v for v, b in zip(vecs, res[0]) if b]
+            cyc = [v for v, b in zip(vecs, res[0]) if not b]
             ctx.extra['five_node_arrow_sets'] = {'acyclic (Coq)': len(acyc), 'cyclic (Coq)': len(cyc), 'cyclic sampled in quick tier': min(3000, len(cyc))}
             lexvecs = acyc + ctx.rng.sample(cyc, min(3000, len(cyc)))
     cases = [('5node-lex', prog_for('lex', v, ctx.rng)) for v in lexvecs]
